@@ -80,6 +80,8 @@ def main(argv=None):
     a = ap.parse_args(argv)
     prop = a.prop.upper()
     common.import_repo()
+    from . import harness
+    harness.init_tmp()
     if a.replay:
         return do_replay(prop, a.replay)
     mod = load_check(prop)
